@@ -141,30 +141,41 @@ class MultiHarness:
     per-cell hyper-parameter overrides: the trainer's monitor pool may share monitors between the cells only where
     that is observationally equivalent"""
 
-    def __init__(self, trainer, dt=1.0, B=1, delay_steps=None, seed=0, batch_reduction=torch.sum, hypers=None, dtype=None):
-        self.name, self.dt, self.B = trainer, dt, B
+    def __init__(self, trainer, dt=1.0, B=1, delay_steps=None, seed=0, batch_reduction=torch.sum, hypers=None, dtype=None,
+                 topology="fan_in"):
+        self.name, self.dt, self.B, self.topology = trainer, dt, B, topology
         self.hypers = [{**DEFAULT_HYPER, **h} for h in hypers]
         if trainer in NEEDS_DELAY and delay_steps is None:
             delay_steps = 2
         delay = None if delay_steps is None else 3 * dt
         g = torch.Generator().manual_seed(seed)
-        self.conns = [fac.make_connection("dense", dt, syn="delta", B=B, delay=delay, nin=3, nout=2) for _ in range(2)]
+        nconn = 2 if topology == "fan_in" else 1
+        self.conns = [fac.make_connection("dense", dt, syn="delta", B=B, delay=delay, nin=3, nout=2) for _ in range(nconn)]
         for c in self.conns:
             fac.randomize(c, g, delay_steps=delay_steps, dt=dt)
             c.updater = c.defaultupdater()
-        self.neuron = ExactNeuron((2,), dt, rest_v=-60.0, thresh_v=-50.0, batch_size=B)
-        self.layer = neural.Biclique([("c0", self.conns[0]), ("c1", self.conns[1])], [("n0", self.neuron)], combine="sum")
+        self.neurons = [ExactNeuron((2,), dt, rest_v=-60.0, thresh_v=-50.0, batch_size=B) for _ in range(3 - nconn)]
+        self.neuron = self.neurons[0]
+        self.layer = neural.Biclique([(f"c{i}", c) for i, c in enumerate(self.conns)],
+                                     [(f"n{i}", n) for i, n in enumerate(self.neurons)], combine="sum")
         self.trainer = build_trainer(trainer, {}, batch_reduction, per_cell=True)
+        # fan_in: cells (c0, n0), (c1, n0) share the postsynaptic group; fan_out: cells (c0, n0), (c0, n1) share the
+        # connection (its synapse-side monitors and its updater)
+        self.cellkeys = [("c0", "n0"), ("c1", "n0")] if topology == "fan_in" else [("c0", "n0"), ("c0", "n1")]
         for i, nm in enumerate(("a", "b")):
-            self.trainer.register_cell(nm, self.layer.get_cell(f"c{i}", "n0"), batch_reduction=batch_reduction,
+            self.trainer.register_cell(nm, self.layer.get_cell(*self.cellkeys[i]), batch_reduction=batch_reduction,
                                        **trainer_args(trainer, self.hypers[i]))
         if dtype is not None:
             self.layer.to(dtype)
             self.trainer.to(dtype)
         self.param = "delay" if trainer in LEARNS_DELAY else "weight"
 
-    def step_apply(self, pres, post, reward=None, scale=1.0):
-        self.layer({"c0": (pres[0],), "c1": (pres[1],)}, neuron_kwargs={"n0": {"override": post}})
+    def step_apply(self, pres, posts, reward=None, scale=1.0):
+        """pres / posts: one spike tensor per connection / neuron group -> one (pos, neg, applied change) per connection"""
+        if not isinstance(posts, (list, tuple)):
+            posts = [posts]
+        self.layer({f"c{i}": (p,) for i, p in enumerate(pres)},
+                   neuron_kwargs={f"n{i}": {"override": q} for i, q in enumerate(posts)})
         if self.name in THREE_FACTOR:
             self.trainer(reward, scale)
         else:
